@@ -6,7 +6,10 @@ CHECK = {
                  "transition (state = set of refined nodes = sorted leaf keys, fresh real object rebuilt from each history); "
                  "bounded-exhaustive position / neighbour / ray / query lattices for CartesianDensityGrid, AMRDensityGrid, "
                  "VoronoiDensityGrid, Octree and PointLocations against index-arithmetic, long double ray marcher and "
-                 "brute-force oracles",
+                 "brute-force oracles; for the search structures additionally every member of a finite family of block-clustered "
+                 "generator sets (all unordered pairs of the s^3 search blocks, all lines, slabs, diagonals and diagonal planes of "
+                 "blocks) x every block as origin of the search, so that the shell-by-shell block traversal is driven to its last "
+                 "shell and last block",
     "level_text": "AMR state space: every refinement history of the real AMRGrid inside the bound (block layouts 1, 2x1x1, 3x1x1, "
                   "3x2x1 (+1x1x2, 1x2x3); all 8 children: quick <=5/4/4/3 refinements with leaves to level 3, thorough <=6 "
                   "refinements to level 3 and <=5 to level 4 for one block, <=4 to level 4 for two and three blocks, <=4 to level 3 / <=3 to level 4 for six; "
@@ -19,7 +22,20 @@ CHECK = {
                   "create_cell. The density grids and search structures are sequential numeric code: all positions of a face/"
                   "centre/1-ulp lattice, all cells x faces x 8 periodicities, all rays of start lattice x 124 integer directions x "
                   "periodicities x opacity fields x target depths, and all queries of a centre lattice x point sets x radii are "
-                  "evaluated against independent oracles. The refinement histories form a finite state machine whose "
+                  "evaluated against independent oracles. Search structures, block-clustered sets (3 boxes 1x1x1, 4x2x1, 1x3x2 with "
+                  "anchors of both signs): PointLocations grids of s^3 blocks, generators confined to (a) every unordered pair of "
+                  "blocks incl. a single block (quick s=2..4, thorough s=2..5 and s=6 in the 4x2x1 box), (b) every axis-parallel line "
+                  "and slab of blocks, the 4 space diagonals and 6 diagonal planes (quick s=2..5, thorough s=2..8; 1 and 3 generators "
+                  "per block on average), (c) a single-block grid with 1, 2, 3, 7 generators; from EVERY block 2-5 positions (centre, "
+                  "next to the lower/upper corner, exactly on the lower block corner, mixed): get_closest_neighbour = brute force, "
+                  "the radius protocol (central bucket, while increase_range() && max_radius2 < r^2) around the arbitrary position "
+                  "(generalngbiterator) and around a stored generator of every occupied block (ngbiterator) with radii on both sides "
+                  "of the nearest/farthest generator (everything inside delivered, nothing twice, not more buckets than blocks, an "
+                  "exhausted search delivered everything), Octree get_ngbs/get_ngbs_sphere/get_ngbs_list/get_closest_ngb (periodic "
+                  "and not, box-scale smoothing lengths) on the sets with s<=3 (thorough s<=4); the static helpers set_max_range/"
+                  "increase_indices of both iterators for all grids up to 5^3 (thorough 7^3) blocks x all anchors against the "
+                  "enumeration of Chebyshev shells (verdict only for equal block counts, the only ones a PointLocations can have). "
+                  "The refinement histories form a finite state machine whose "
                   "observable behaviour must depend on the state only, which is what explicit-state search decides.",
     "level_note": "Nothing is claimed beyond the stated budgets (full-alphabet BFS stops at 6 refinements; 12 refinements only over "
                   "pairs of opposite children; depth 8 only along single chains). Positions on the upper box faces are outside the "
@@ -29,15 +45,20 @@ CHECK = {
                   "still required. Ray tolerances k=2: k eps (steps+2)(max|coord|/min|dir_i| + path); Voronoi adds 4e-12 |diagonal| "
                   "per step for the code's deliberate epsilon displacement. AMRDensityGrid::get_neighbours / "
                   "integrate_optical_depth and VoronoiDensityGrid::integrate_optical_depth are unimplemented in the code base. "
-                  "Voronoi generator sets are generic (degenerate sets: C15).",
-    "quick_deadline": 110,
+                  "Voronoi generator sets are generic (degenerate sets: C15). PointLocations always has the same number of blocks "
+                  "along every axis (round(cbrt(N/num_per_cell))); only the block side lengths differ per axis. Closest-neighbour "
+                  "answers may differ from brute force by a factor (1+16 eps) in r^2 (the code compares double r^2 values, 4 eps each, "
+                  "k=2); radius protocol: a generator counts as inside the radius if r < rad - 8 eps rad - 8 eps (s+3)(|anchor|+|side|) "
+                  "(round-off of the covered-region bounds, k=4). The block-pair family is complete for s<=6 only; for larger s only "
+                  "lines/slabs/diagonals are enumerated.",
+    "quick_deadline": 118,
     "thorough_deadline": 1200,
     "parts": [
-        {"name": "amr", "bin": "c16_amr", "quick_share": 0.36, "thorough_share": 0.38},
-        {"name": "cartesian", "bin": "c16_cartesian", "quick_share": 0.28, "thorough_share": 0.38},
-        {"name": "amrdens", "bin": "c16_amrdens", "quick_share": 0.24, "thorough_share": 0.16},
-        {"name": "voronoi", "bin": "c16_voronoi", "quick_share": 0.07, "thorough_share": 0.06},
-        {"name": "search", "bin": "c16_search", "quick_share": 0.05, "thorough_share": 0.02},
+        {"name": "amr", "bin": "c16_amr", "quick_share": 0.335, "thorough_share": 0.34},
+        {"name": "cartesian", "bin": "c16_cartesian", "quick_share": 0.26, "thorough_share": 0.35},
+        {"name": "amrdens", "bin": "c16_amrdens", "quick_share": 0.224, "thorough_share": 0.15},
+        {"name": "voronoi", "bin": "c16_voronoi", "quick_share": 0.065, "thorough_share": 0.05},
+        {"name": "search", "bin": "c16_search", "quick_share": 0.116, "thorough_share": 0.11},
     ],
     "assumptions": [],
 }
